@@ -36,22 +36,54 @@ RULE = ("per model (defaults of HEM/Merton/VG/CGMY, one CGMY draw per activity b
         "(base-class n >= 3 for HEM/Merton/CGMY, CGMY one-sided x^2) get 3e-8*|ref| + 3e-8, twice quad's own epsrel/epsabs. Truncations (l, r) are non-zero "
         "break points. non-trivial = |ref| > 1e-9 and a < b; distinct = distinct (model, route, n, a, b, truncation).")
 NOT_PROVED = [
-    "Merton (erf), VG mass (E1) and CGMY (incomplete gamma) closed forms: compared with quadrature only; Mathlib has none of "
-    "these special functions",
-    "integrals with an infinite end point (improper integrals): the closed forms with `inf` are compared, the theorems are for "
-    "finite a <= b on one side of 0 (and for the split at 0 through additivity)",
+    "CGMY closed forms (exp1 / gammaincc / gamma recursion of cgmy.py:215-276): compared with quadrature only; Mathlib has no "
+    "incomplete gamma function and the ODE-hypothesis route was not reached",
+    "Merton mass / x / x^2 are theorems only under the explicit hypothesis erf' x = 2/sqrt(pi) exp(-x^2) on a function parameter "
+    "(Mathlib has no erf), for finite real a, b; Merton with infinite end points (erf(+-inf) = +-1) is compared only",
+    "VG mass is a theorem only under the explicit hypothesis E1' x = -exp(-x)/x (x > 0), for finite a <= b on one side of 0; "
+    "VG mass on half-lines (E1 at infinity) is compared only",
+    "x^n exp(-alpha|x|), HEM: an infinite end point together with a straddled zero (e.g. (-inf, b] with b > 0, (-inf, inf)) is "
+    "not stated as one theorem (it is the sum of a proved half-line and a proved finite piece); VG x^n with infinite ends compared only",
     "the scipy.integrate.quad fallbacks (base-class integrate_against_xn for n >= 3, CGMY one-sided x^2) are numerical: compared only",
     "float rounding / cancellation of the closed forms (conditioning) is absorbed by the tolerance, not modelled",
 ]
 ASSUMPTIONS = ["the density of each family is the formula of its `__call__` evaluated at the float parameters of the model; "
                "the harness restates it in mpmath and ties it to `nu(x)` at random points (c09.density) and by a direct "
                "quadrature of `nu.__call__` (c09.own_density)"]
-TRUSTED = ["mpmath.quad (tanh-sinh, 30 digits) and mpmath.exp as the reference", "scipy.special erf / exp1 / gamma / gammainc(c)"]
+TRUSTED = ["mpmath.quad (tanh-sinh, 30 digits) and mpmath.exp as the reference",
+           "scipy.special erf / exp1 / gamma / gammainc(c); the ODE hypotheses of merton_* / vg_mass_* (erf' = 2/sqrt(pi) e^{-x^2}, "
+           "E1' = -e^{-x}/x) are probed numerically on scipy's erf / exp1 (c09.special_ode), not proved of them"]
+
+LEAN_TARGETS = ["RpylibModel.Proofs.C09", "RpylibModel.Proofs.Lemmas.C09Abstract", "RpylibModel.Proofs.Lemmas.C09XnExp",
+                "RpylibModel.Proofs.Lemmas.C09Terms", "RpylibModel.Proofs.Lemmas.C09Hem", "RpylibModel.Proofs.Lemmas.C09Vg",
+                "RpylibModel.Proofs.Lemmas.C09Special", "RpylibModel.Proofs.Lemmas.C09Improper", "RpylibModel.Model.Integrals"]
 
 _STATS = {} if os.environ.get("C09_STATS") else None
 
 
 # ------------------------------------------------------------------------------------------------ helpers
+def _js(o):
+    """strict-JSON form of inputs / details: infinite or nan floats become strings (float("inf") reads them back)"""
+    if isinstance(o, float) and not math.isfinite(o):
+        return "nan" if math.isnan(o) else ("inf" if o > 0 else "-inf")
+    if isinstance(o, dict):
+        return {k: _js(v) for k, v in o.items()}
+    if isinstance(o, (list, tuple)):
+        return [_js(v) for v in o]
+    if isinstance(o, (np.floating, np.integer)):
+        return _js(o.item())
+    return o
+
+
+def _wrap(ctx):
+    if getattr(ctx, "_c09_wrapped", False):
+        return
+    oc, of = ctx.count, ctx.fail
+    ctx.count = lambda probe, inp, **k: oc(probe, _js(inp), **k)
+    ctx.fail = lambda kind, probe, inp, detail, **k: of(kind, probe, _js(inp), _js(detail), **k)
+    ctx._c09_wrapped = True
+
+
 def M(x):
     if isinstance(x, float) and math.isinf(x):
         return mp.inf if x > 0 else -mp.inf
@@ -597,6 +629,31 @@ def xn_helper_stream(ctx, rng, count):
                     lambda: toolint.integral_xn_exp_minus_x(n=1, a=0.5, b=1.0, alpha=alpha), inp, dict(n=1, shape="alpha<=0"))
 
 
+def special_ode_probe(ctx, rng, count):
+    """the hypotheses of the Merton / VG-mass theorems, probed on the functions the implementation calls: scipy's erf and
+    exp1 agree with mpmath's to 1e-13 relative, and mpmath's satisfy the ODE (numerical derivative at 40 digits)"""
+    import scipy.special as sp
+    for _ in range(count):
+        x = rng.uniform(-4, 4)
+        inp = dict(fn="erf", x=x)
+        ctx.count("c09.special_ode", inp, nontrivial=True, branch="erf")
+        with mp.workdps(40):
+            d = mp.diff(mp.erf, M(x))
+            want = 2 / mp.sqrt(mp.pi) * mp.exp(-M(x) ** 2)
+            ok = abs(M(float(sp.erf(x))) - mp.erf(M(x))) <= mp.mpf("1e-13") * max(abs(mp.erf(M(x))), mp.mpf("1e-3")) and abs(d - want) <= mp.mpf("1e-20")
+        if not ok:
+            ctx.fail("corr", "c09.special_ode", inp, {"name": "hypothesis herf of merton_mass/_x/_xx on scipy.special.erf", "scipy": float(sp.erf(x))}, cls={})
+        y = math.exp(rng.uniform(math.log(1e-3), math.log(30)))
+        inp = dict(fn="exp1", x=y)
+        ctx.count("c09.special_ode", inp, nontrivial=True, branch="exp1")
+        with mp.workdps(40):
+            d = mp.diff(mp.e1, M(y))
+            want = -mp.exp(-M(y)) / M(y)
+            ok = abs(M(float(sp.exp1(y))) - mp.e1(M(y))) <= mp.mpf("1e-13") * abs(mp.e1(M(y))) and abs(d - want) <= mp.mpf("1e-20") * max(1, abs(want))
+        if not ok:
+            ctx.fail("corr", "c09.special_ode", inp, {"name": "hypothesis hE1 of vg_mass_pos/_neg on scipy.special.exp1", "scipy": float(sp.exp1(y))}, cls={})
+
+
 class _Generic(LevyMeasure):
     """a measure that only defines its density: exercises every base-class quadrature fallback (levymodel.py:81-110)"""
 
@@ -651,12 +708,14 @@ def generic_fallback_probe(ctx, rng, fam, params, nside):
 
 
 def run(ctx):
+    _wrap(ctx)
     rng = ctx.rng
     nmodels = ctx.n(11, 70)
     nside = ctx.n(2, 3)
     for fam, params in zoo.model_stream(rng, nmodels):
         run_model(ctx, fam, params, rng, nside, ntrunc=ctx.n(2, 3))
     xn_helper_stream(ctx, rng, ctx.n(90, 900))
+    special_ode_probe(ctx, rng, ctx.n(20, 100))
     for fam in ("hem", "merton"):
         for _ in range(ctx.n(1, 6)):
             generic_fallback_probe(ctx, rng, fam, zoo.draw_params(rng, fam), 2)
@@ -667,6 +726,7 @@ def run(ctx):
 
 def search(ctx):
     """extended oracle-only search when only the tie broke: more models, three break points per side"""
+    _wrap(ctx)
     rng = ctx.rng
     for fam, params in zoo.model_stream(rng, 30)[9:]:
         run_model(ctx, fam, params, rng, 3, ntrunc=2)
@@ -675,6 +735,7 @@ def search(ctx):
 
 def replay(ctx, rec):
     """re-run the probe of a replay / corpus record"""
+    _wrap(ctx)
     d, probe = rec["input"], rec["probe"]
     if probe.startswith("c09.xnexp") or probe.startswith("c09.helper"):
         rng = ctx.rng
